@@ -170,3 +170,24 @@ M('C10', 'c10-state-not-subscribed', [(PUSF, "        state.add_ui_state_listene
 M('C10', 'c10-destroy-bp-halts', [(PLG, "        self.plugin.close_connection(connection_id)\n        return False", "        self.plugin.close_connection(connection_id)\n        return self.plugin.paused()")], 'C10.1')
 V('C10', 'c10v-invoke-nested', [(PLG, "        if self.state.should_quit():\n            gdb.execute('quit')\n        elif not self.state.paused():\n            gdb.execute('continue')", "        if not self.state.should_quit():\n            if not self.state.paused():\n                gdb.execute('continue')\n        else:\n            gdb.execute('quit')")])
 V('C10', 'c10v-stop-temp', [(PLG, "        self.plugin.process_message(connection_id, message)\n        return self.plugin.paused()", "        self.plugin.process_message(connection_id, message)\n        halted = self.plugin.paused()\n        return halted")])
+
+# ---- C11 -----------------------------------------------------------------------------------------
+M('C11', 'c11-newest-first', [(CTL, "        return (list(reversed(acc)), len(acc)", "        return (list(acc), len(acc)")], 'C11.3')
+M('C11', 'c11-cap-keeps-first', [(CTL, "        for message in reversed(messages):", "        for message in messages:"), (CTL, "        return (list(reversed(acc)), len(acc)", "        return (list(acc), len(acc)")], 'C11.3')
+M('C11', 'c11-cap-off-by-one', [(CTL, "if cap and len(acc) >= cap:", "if cap and len(acc) > cap:")], 'C11.4')
+V('C11', 'c11v-cap-zero-implicit', [(CTL, "        if cap == 0:\n            cap = None\n", "")])
+M('C11', 'c11-cap-zero-stops', [(CTL, "        if cap == 0:\n            cap = None\n", ""), (CTL, "if cap and len(acc) >= cap:", "if cap is not None and len(acc) >= cap:")], 'C11.4')
+M('C11', 'c11-join-with-filter', [(CTL, "            m = self.parse_and_join(arg, None)", "            m = self.parse_and_join(arg, self.display_matcher)")], 'C11.6')
+M('C11', 'c11-list-sets-filter', [(CTL, "            m = self.parse_and_join(arg, None)\n", "            m = self.parse_and_join(arg, None)\n            self.display_matcher = m\n")], 'C11.1')
+M('C11', 'c11-count-from-all', [(CTL, "len(messages) - len(acc) - didnt_match)", "len(self.all_messages) - len(acc) - didnt_match)")], 'C11.5')
+M('C11', 'c11-not-checked-wrong', [(CTL, "len(messages) - len(acc) - didnt_match)", "len(messages) - didnt_match)")], 'C11.5')
+M('C11', 'c11-didnt-counts-all', [(CTL, "                if cap and len(acc) >= cap:\n                    break\n            else:\n                didnt_match += 1", "                if cap and len(acc) >= cap:\n                    break\n            didnt_match += 1")], 'C11.5')
+M('C11', 'c11-ignore-selection', [(CTL, "        if connection:\n            messages = connection.messages()\n        else:\n            messages = tuple(self.all_messages)", "        messages = tuple(self.all_messages)")], 'C11.2')
+M('C11', 'c11-selection-not-passed', [(CTL, "        self.show_messages(self.current_connection, m, cap)", "        self.show_messages(None, m, cap)")], 'C11.2')
+M('C11', 'c11-counts-swapped-in-summary', [(CTL, "matching, matched, didnt_match, not_searched = self._get_matching(connection, matcher, cap)", "matching, didnt_match, matched, not_searched = self._get_matching(connection, matcher, cap)")], 'C11.5')
+M('C11', 'c11-list-prunes-record', [(CTL, "        for message in reversed(messages):\n            if matcher.matches(message):", "        for message in reversed(messages):\n            if len(self.all_messages) > 100000:\n                self.all_messages.pop(0)\n            if matcher.matches(message):")], 'C11.1')
+M('C11', 'c11-matched-count-cap', [(CTL, "        return (list(reversed(acc)), len(acc), didnt_match", "        return (list(reversed(acc)), cap or len(acc), didnt_match")], 'C11.5')
+M('C11', 'c11-break-on-nonmatch', [(CTL, "            else:\n                didnt_match += 1\n        return (list", "            else:\n                didnt_match += 1\n                if cap and didnt_match >= cap:\n                    break\n        return (list")], 'C11')
+V('C11', 'c11v-slice-reverse', [(CTL, "        return (list(reversed(acc)), len(acc)", "        return (acc[::-1], len(acc)")])
+V('C11', 'c11v-cap-is-none', [(CTL, "if cap and len(acc) >= cap:", "if cap is not None and len(acc) >= cap:")])
+V('C11', 'c11v-connection-is-not-none', [(CTL, "        if connection:\n            messages = connection.messages()", "        if connection is not None:\n            messages = connection.messages()")])
